@@ -27,7 +27,7 @@ Min(a, b) == IF a <= b THEN a ELSE b
 NoReq == [known |-> FALSE, idx |-> 0, method |-> "", ver |-> "", wantclose |-> FALSE,
           bad |-> FALSE, total |-> 0, kind |-> "", stream |-> 0,
           head |-> FALSE, body |-> 0, done |-> FALSE, headAt |-> -1,
-          rst |-> FALSE]
+          rst |-> FALSE, c |-> [toks |-> <<>>, headers |-> <<>>]]
 
 (* ---- per application instance ------------------------------------------- *)
 NoApp == [started |-> 0, kind |-> "", dup |-> FALSE,
@@ -137,7 +137,7 @@ OStep(o0, ev) ==
             [o EXCEPT !.reqs = Put(@, ev.app, [NoReq EXCEPT !.known = TRUE, !.idx = ev.idx,
                                    !.method = ev.method, !.ver = ev.ver, !.wantclose = ev.wantclose,
                                    !.bad = ev.bad, !.total = ev.total, !.kind = ev.kind,
-                                   !.stream = ev.stream]),
+                                   !.stream = ev.stream, !.c = ev]),
                       !.order = Append(@, ev.app)]
       [] ev.e = "c_send" ->
             LET r2 == ApplyProgress(o.reqs, ev.reqs)
@@ -177,6 +177,21 @@ SuppressBody(method, status) ==
     method = "HEAD" \/ (status >= 100 /\ status < 200) \/ status \in {204, 304}
 
 RespComplete(o, a) == Wire(o, a).ends > 0
+
+(* HTTP/1: the exchange for request a leaves the connection reusable (C06: "reused only  *)
+(* if request and response were both complete and neither side asked to close").        *)
+Reusable(o, a) ==
+    LET r == Req(o, a) w == Wire(o, a) IN
+    /\ r.known /\ r.kind \in {"http", "badhost"} /\ ~r.bad
+    /\ r.done
+    /\ w.ends > 0 /\ ~w.trunc /\ ~w.close
+    /\ ~r.wantclose
+    /\ r.ver = "1.1"
+    /\ r.idx < o.cfg.kamax
+
+(* between the arrival of a complete request head and the end of its response *)
+BusyReq(o, a) == LET r == Req(o, a) IN r.known /\ r.head /\ ~r.bad /\ Wire(o, a).ends = 0
+Busy(o) == \E a \in DOMAIN o.reqs : BusyReq(o, a)
 
 F(clause, ctx) == <<clause, ctx>>
 =============================================================================
